@@ -39,8 +39,80 @@ pub fn request_parts(kind: &str, common: &plonky2::plonk::circuit_data::CommonCi
     format!("{kind} {}", t.line())
 }
 
+/// STARK transcripts: for accepted STARK proofs (plain and padded/variable-degree transcript mode,
+/// incl. the case where the proof's own final polynomial is LONGER than the verifier circuit's, so
+/// that padding must not truncate) every challenge is compared with the Lean model
+/// (`get_challenges`), and every absorbed component is altered in turn — first, middle and LAST
+/// element of each class — after which the challenge vector must differ from the honest one.
+fn stark_transcripts(e: &mut Emitter, r: &mut Rng, thorough: bool) {
+    use std::sync::Arc;
+    use plonky2::field::types::Field;
+    use plonky2::fri::FriConfig;
+    use serde_json::Value;
+    use starky::config::StarkConfig;
+    use crate::c03::{at, class_of, walk};
+    use crate::stark_dsl::*;
+    let n_inst = if thorough { 10 } else { 4 };
+    for k in 0..n_inst {
+        // k = 0: ConstantArityBits(4, 2), cap height 4, rate 1: a 2^6-row proof has no reduction step
+        // (6 + 1 − 4 < 4) and a 64-coefficient final polynomial, the verifier circuit of degree 3 has 8
+        let (config, vp, log_n, lookups) = if k == 0 {
+            let c = StarkConfig::new(4, 2, FriConfig { rate_bits: 1, cap_height: 4, proof_of_work_bits: 1, reduction_strategy: FriReductionStrategy::ConstantArityBits(4, 2), num_query_rounds: 2 });
+            let vp = padded_params(&c, 0);
+            (c, vp, 6usize, false)
+        } else {
+            let c = gen_stark_config(r, true, 2);
+            let vp = if k % 2 == 1 { padded_params(&c, r.range(0, 3) as usize) } else { None };
+            (c, vp, r.range(3, 6) as usize, k % 3 == 2)
+        };
+        let (air, rows, pis) = if lookups {
+            let (rows, pis) = permutation_trace(1 << log_n, F::from_canonical_u64(r.below(1 << 30)));
+            (Arc::new(permutation_air(3)), rows, pis)
+        } else {
+            let (rows, pis) = fibonacci_trace(1 << log_n, F::from_canonical_u64(r.below(P)), F::from_canonical_u64(r.below(P)));
+            (Arc::new(fibonacci_air()), rows, pis)
+        };
+        e.stage(&format!("proving a STARK instance for transcript tests (config {:?}, padded {:?})", config, vp.as_ref().map(|p| (p.degree_bits, p.reduction_arity_bits.clone()))));
+        let Ok(Ok(proof)) = std::panic::catch_unwind(std::panic::AssertUnwindSafe(|| prove_air(&air, &config, &rows, &pis, vp.clone()))) else { e.count("stark transcript: inadmissible config"); continue; };
+        if verdict_air(&air, &config, &proof, vp.clone()) != "ACCEPT" { e.count("stark transcript: honest proof not accepted (covered by C09)"); continue; }
+        let final_len = proof.proof.opening_proof.final_poly.coeffs.len();
+        e.count(&format!("stark transcript instance: padded={} final_poly_len={} circuit_final_len={:?} lookups={}", vp.is_some(), final_len,
+            vp.as_ref().map(|p| 1usize << (p.degree_bits - p.reduction_arity_bits.iter().sum::<usize>())), lookups));
+        let honest = challenges_air(&air, &config, &proof, vp.clone());
+        let h2 = honest.clone();
+        e.case("stark challenges (honest)", proof_request("c04 schallenges", &air, &config, &vp, &proof), || h2);
+        let json = serde_json::to_value(&proof).unwrap();
+        let (mut leaves, mut arrays) = (vec![], vec![]);
+        walk(&json, &mut vec![], &mut leaves, &mut arrays);
+        let mut by_class: std::collections::BTreeMap<String, Vec<Vec<String>>> = Default::default();
+        for l in leaves { by_class.entry(class_of(&l)).or_default().push(l); }
+        for (cls, ls) in &by_class {
+            // the answers to the queries are the last prover message: nothing is drawn after them
+            if cls.contains("query_round_proofs") { continue; }
+            let mut picks = vec![ls[0].clone(), ls[ls.len() - 1].clone(), ls[ls.len() / 2].clone()];
+            if thorough { for _ in 0..3 { picks.push(r.pick(ls).clone()); } }
+            picks.dedup();
+            for path in picks {
+                let mut j = json.clone();
+                let cell = at(&mut j, &path);
+                let old = cell.as_u64().unwrap() % P;
+                *cell = Value::from((old + 1 + r.below(P - 1)) % P);
+                let Ok(p2) = serde_json::from_value::<SProof>(j) else { continue };
+                let c2 = std::panic::catch_unwind(std::panic::AssertUnwindSafe(|| challenges_air(&air, &config, &p2, vp.clone()))).unwrap_or("PANIC".into());
+                if c2 == honest {
+                    e.oracle_failures.push(format!("STARK transcript does not bind {cls} (element {}): every challenge is unchanged after altering it; config {:?}, padded {:?}",
+                        path.join("/"), config, vp.as_ref().map(|p| p.degree_bits)));
+                }
+                let c3 = c2.clone();
+                e.case(&format!("stark challenges after altering {cls}"), proof_request("c04 schallenges", &air, &config, &vp, &p2), || c3);
+            }
+        }
+    }
+}
+
 pub fn emit(e: &mut Emitter, seed: u64, thorough: bool) {
     let mut r = Rng::new(seed ^ 0x04);
+    stark_transcripts(e, &mut r, thorough);
     let n_circuits = if thorough { 40 } else { 8 };
     let mut made = 0;
     let mut tries = 0;
